@@ -482,31 +482,22 @@ Proof.
   apply finish_spec; assumption.
 Qed.
 
-(* what the reductions of the current code need beyond genome order *)
+(* what the reductions of the current code need beyond genome order.  Since the repair of mean_reduction (column-wise
+   padded addition, `_add_columns`) mean(axis=0) needs nothing. *)
 Definition pipeline_guard (p : pipeline) (order sizes : list Z) (da db : list (Z * iv)) : Prop :=
   match p with
-  | PValuesMean0 => exists c, equal_columns c (all_rows order sizes da db)   (* mean_reduction: `+` on column sums *)
   | PValuesSum => length sizes = 1%nat                                        (* operator.add on per-window sums *)
   | PValuesSum0 => exists c, full_columns c (all_rows order sizes da db)      (* operator.add on column sums *)
   | _ => True
   end.
-Definition pipeline_guard_fixed (p : pipeline) (order sizes : list Z) (da db : list (Z * iv)) : Prop :=
-  match p with PValuesMean0 => True | _ => pipeline_guard p order sizes da db end.
+(* history: the mean_reduction of the pinned commit added the column sums with `+` *)
+Definition pipeline_guard_pinned (p : pipeline) (order sizes : list Z) (da db : list (Z * iv)) : Prop :=
+  match p with
+  | PValuesMean0 => exists c, equal_columns c (all_rows order sizes da db)
+  | _ => pipeline_guard p order sizes da db
+  end.
 
-(* with the repaired mean reduction *)
-Theorem pipeline_spec_fixed : forall p order sizes (csa csb : list (list (Z * iv))),
-  NoDup order -> length order = length sizes -> (0 < length sizes)%nat ->
-  csa <> [] -> csb <> [] -> Forall (fun c => c <> []) csa -> Forall (fun c => c <> []) csb ->
-  ordered order (concat csa) -> ordered order (concat csb) ->
-  pipeline_guard_fixed p order sizes (concat csa) (concat csb) ->
-  run_pipeline_with red_mean_fixed p order sizes csa csb
-  = Some (spec_pipeline p order sizes (concat csa) (concat csb)).
-Proof.
-  intros p order sizes csa csb Hnd Hlen Hpos Ha Hb Hna Hnb Hoa Hob Hg.
-  apply pipeline_spec_with; auto; intros ->; exact Hg.
-Qed.
-
-(* with the reductions of the current code *)
+(* the current code *)
 Theorem pipeline_spec_current : forall p order sizes (csa csb : list (list (Z * iv))),
   NoDup order -> length order = length sizes -> (0 < length sizes)%nat ->
   csa <> [] -> csb <> [] -> Forall (fun c => c <> []) csa -> Forall (fun c => c <> []) csb ->
@@ -515,15 +506,27 @@ Theorem pipeline_spec_current : forall p order sizes (csa csb : list (list (Z * 
   run_pipeline p order sizes csa csb = Some (spec_pipeline p order sizes (concat csa) (concat csb)).
 Proof.
   intros p order sizes csa csb Hnd Hlen Hpos Ha Hb Hna Hnb Hoa Hob Hg.
-  unfold run_pipeline, red_mean_current. apply pipeline_spec_with; auto; intros ->; try exact Hg.
+  unfold run_pipeline, red_mean_current. apply pipeline_spec_with; auto; intros ->; exact Hg.
+Qed.
+
+(* history: the pinned mean_reduction under its guard *)
+Theorem pipeline_spec_pinned : forall p order sizes (csa csb : list (list (Z * iv))),
+  NoDup order -> length order = length sizes -> (0 < length sizes)%nat ->
+  csa <> [] -> csb <> [] -> Forall (fun c => c <> []) csa -> Forall (fun c => c <> []) csb ->
+  ordered order (concat csa) -> ordered order (concat csb) ->
+  pipeline_guard_pinned p order sizes (concat csa) (concat csb) ->
+  run_pipeline_with red_mean p order sizes csa csb = Some (spec_pipeline p order sizes (concat csa) (concat csb)).
+Proof.
+  intros p order sizes csa csb Hnd Hlen Hpos Ha Hb Hna Hnb Hoa Hob Hg.
+  apply pipeline_spec_with; auto; intros ->; try exact Hg.
   destruct Hg as (c & Hc). apply (reduce_mean_pinned c). exact Hc.
 Qed.
 
-(* without the guard the current code fails: windows of length 1 on chromosome 0 and 2 on chromosome 1 *)
+(* history: without the guard the pinned mean_reduction fails: windows of length 1 on chromosome 0 and 2 on chromosome 1 *)
 Lemma pipeline_mean_refuted :
   exists order sizes (csa csb : list (list (Z * iv))),
     NoDup order /\ length order = length sizes /\ ordered order (concat csa) /\ ordered order (concat csb)
-    /\ run_pipeline PValuesMean0 order sizes csa csb = Some GErr
+    /\ run_pipeline_with red_mean PValuesMean0 order sizes csa csb = Some GErr
     /\ spec_pipeline PValuesMean0 order sizes (concat csa) (concat csb) <> GErr.
 Proof.
   exists [0; 1], [4; 4], [[(0, (0, 2)); (1, (1, 3))]], [[(0, (0, 1))]; [(1, (1, 3))]].
